@@ -10,7 +10,7 @@ TYPES_DECL = {"a": "object", "b": "a"}
 PREDS = {"p": [("?x", "a")], "q": [("?x", "a")], "r": [("?x", "a"), ("?y", "a")], "g": [], "s": [("?x", "b")]}
 FUNCS = {"f": [("?x", "a")], "c": [], "d": [("?x", "a"), ("?y", "a")]}
 OBJECTS = {"o1": "a", "o2": "b"}
-CONSTS = {"k": "a"}
+CONSTS = {"k": "a", "k2": "b"}
 
 HEADER = """(define (domain gen)
 (:requirements :typing :negative-preconditions :equality :disjunctive-preconditions :universal-preconditions :conditional-effects :fluents)
@@ -23,7 +23,7 @@ HEADER = """(define (domain gen)
 
 def domain_text(actions, with_const=False):
     """actions: list of (name, params_text, pre_text, eff_text)"""
-    out = HEADER.format(consts="(:constants k - a)" if with_const else "")
+    out = HEADER.format(consts="(:constants k - a k2 - b)" if with_const else "")
     for name, params, pre, eff in actions:
         out += f"(:action {name}\n :parameters ({params})\n :precondition {pre}\n :effect {eff})\n"
     return out + ")\n"
@@ -67,13 +67,14 @@ def formulas(level):
 
 
 def const_formulas():
-    return [f"(and {a})" for a in CONST_ATOMS] + ["(and (or (p k) (q ?y)))", "(and (forall (?z - a) (and (r ?z k))))"]
+    return [f"(and {a})" for a in CONST_ATOMS] + ["(and (or (p k) (q ?y)))", "(and (forall (?z - a) (and (r ?z k))))",
+                                                   "(and (r k2 ?x))", "(and (not (r ?y k2)) (s k2))", "(and (r k2 k))", "(and (>= (d k2 ?x) 1))"]
 
 
 # ---- effects (as text) -----------------------------------------------------------------------------
 SIMPLE_EFFS = ["(p ?x)", "(not (q ?y))", "(r ?x ?y)", "(not (r ?x ?y))", "(g)", "(not (g))", "(increase (c) 1)",
                "(decrease (f ?x) (c))", "(assign (f ?y) (+ (c) (f ?x)))", "(assign (c) (* (f ?x) 2))", "(increase (d ?x ?y) 1)"]
-CONDS = ["(and (p ?x))", "(and (not (q ?y)))", "(and (= ?x ?y))", "(and (>= (c) 1))", "(and (or (g) (q ?x)))", "(p ?y)", "(and (p ?x) (not (g)))"]
+CONDS = ["(and (p ?x))", "(and (not (q ?y)))", "(and (= ?x ?y))", "(and (>= (c) 1))", "(and (or (g) (q ?x)))", "(p ?y)", "(and (p ?x) (not (g)))", "(or (g) (q ?x))", "(or (not (p ?y)) (>= (c) 2))"]
 Q_EFFS = ["(forall (?z - a) (when (and (p ?z)) (q ?z)))", "(forall (?z - b) (when (and (not (q ?z))) (and (p ?z) (increase (c) 1))))",
           "(forall (?z - object) (when (and (r ?x ?z)) (not (r ?x ?z))))", "(forall (?z - a) (when (and (>= (f ?z) 1)) (assign (f ?z) 0)))",
           "(forall (?z - a) (when (and (not (= ?z ?x))) (p ?z)))"]
@@ -97,6 +98,8 @@ def effect_bodies(level):
         out.append(f"(and {q})")
         out.append(f"(and (g) {q})")
     out.append("(and (increase (c) 1) (when (and (g)) (assign (f ?x) (c))))")      # rhs must read the pre-state
+    out.append("(and (increase (c) 1) (forall (?z - a) (when (and (p ?z)) (assign (f ?z) (c)))))")
+    out.append("(and (assign (c) 5) (not (g)) (forall (?z - a) (when (and (g)) (increase (f ?z) (c)))))")
     out.append("(and (when (and (p ?x)) (not (p ?x))) (when (and (p ?x)) (q ?x)))")  # conditions read the pre-state
     out.append("(and (not (p ?x)) (p ?x))")                                         # delete then add
     return out
@@ -237,6 +240,12 @@ MA_DOMAIN = """(define (domain ma)
 (:action peek :parameters (?a - agent ?i - item)
  :precondition (and (avail ?i))
  :effect (and (done ?a)))
+(:action give :parameters (?a - agent ?b - agent ?i - item)
+ :precondition (and (has ?a ?i) (free ?b))
+ :effect (and (not (has ?a ?i)) (free ?a) (has ?b ?i) (not (free ?b)) (decrease (load ?a) 1) (increase (load ?b) 1)))
+(:action audit :parameters (?a - agent)
+ :precondition (and (>= (cnt) 0))
+ :effect (and (done ?a)))
 (:action work :parameters (?a - agent)
  :precondition (and (free ?a))
  :effect (and (done ?a) (increase (cnt) 1)))
@@ -261,5 +270,8 @@ def ma_calls(n_agents=2):
     for a in ags:
         for i in MA_ITEMS:
             out += [("take", (a, i)), ("drop", (a, i)), ("lock", (a, i)), ("peek", (a, i))]
-        out += [("work", (a,)), ("rest", (a,))]
+        out += [("work", (a,)), ("rest", (a,)), ("audit", (a,))]
+        for b in ags:
+            if b != a:
+                out += [("give", (a, b, i)) for i in MA_ITEMS]
     return out
